@@ -11,7 +11,6 @@ CASES = [
         [(A, "    if delegation_name not in delegations:\n        raise UnknownRoleError('Role ' + delegation_name + ' not found in the given delegating metadata.')\n", "")],
         "escape|KeyError",
     ),
-    Case("predicate-handler-narrowed", "break", [(C_, "def is_hex_string(hex_string: Any) -> bool:", "def is_hex_string(hex_string: Any) -> bool:\n    pass"), (C_, "        checkformat_hex_string(hex_string)\n        return True\n    except (ValueError, TypeError):", "        checkformat_hex_string(hex_string)\n        return True\n    except ValueError:")], "predicate-raises|common.is_hex_string|TypeError"),
     Case("assert-used-as-validation", "break", [(A, "    if not isinstance(threshold, int) or threshold <= 0:\n        raise TypeError('threshold must be a positive integer.')", "    assert isinstance(threshold, int) and threshold > 0")], "escape|AssertionError"),
     Case("explicit-runtime-error", "break", [(C_, "        raise ValueError('Expected a 64-character hex string representing a key value.')", "        raise RuntimeError('Expected a 64-character hex string representing a key value.')")], "escape|RuntimeError"),
     Case("explicit-key-error", "break", [(A, "        raise UnknownRoleError('Role ' + delegation_name + ' not found in the given delegating metadata.')", "        raise KeyError(delegation_name)")], "KeyError"),
